@@ -363,7 +363,8 @@ Definition spec_case (c : case) : bool :=
       let exact_ok := forallb (genuine_b z) keptrecs in
       let aggr_in := if prefilter then keptrecs else cs in
       let aggr_ok := forallb (fun r => genuine_b z r && (c_class r =? zone_class)) aggr_in in
-      let ds := mix_roots z in
+      (* the roots that matter: cut owners of the zone below which a record that is not the zone's own lies *)
+      let ds := filter (fun d => existsb (fun r => negb (genuine_b z r) && confined_b [d] r) aggr_in) (mix_roots z) in
       let mix_ok := forallb (fun r => (genuine_b z r || confined_b ds r) && (c_class r =? zone_class)) aggr_in in
       forallb (spec_nprobe z exact_ok aggr_ok mix_ok ds) probes
   end.
